@@ -30,13 +30,11 @@ def subclass(f):
     if f[1].strip() == "ok": return "empty-module"
     if "#" in code: return "annotation-in-output"
     if "(import " in tree and ("\\\\" in tree or "\\x22" in tree): return "import-path-escape"
-    if "(fnhead (flags pub" in tree or "(fnhead (flags extern" in tree: return "function-head-flags"
     if "(opaque " in tree: return "opaque-structure"
     return "other"
 
 
 def subclass2(tree):
-    if "(fnhead (flags pub" in tree or "(fnhead (flags extern" in tree: return "function-head-flags"
     if "(opaque " in tree: return "opaque-structure"
     if "(import " in tree: return "import"
     return "other"
